@@ -214,6 +214,9 @@ _OPS: Optional[list[tuple[str, Optional[str]]]] = None
 # sweep uses one target per resolution mechanism (the other ops use every target)
 FILTER_SWEEP_FROM = [0]
 FILTER_SWEEP_TARGETS = {"x", "x.a.b", "x[0]", "x.a[0]", "x[-1]", "x[k]", "y[x.a]", "nosuch"}
+# ... and the container-valued probe data (the scalar / empty assignments only serve as "defined" controls for
+# the truthiness / comparison ops and as validity baselines)
+FILTER_SWEEP_DATA = {"P0", "P1", "P2", "P3", "P7", "P8", "P12", "P13"}
 
 
 def all_ops() -> list[tuple[str, Optional[str]]]:
@@ -294,7 +297,7 @@ class C16(Check):
         "G: every program of the shared corpus x every DATA_SETS assignment x every valid subset of <=2 deleted "
         "keys/sub-paths (all dict keys at any depth, list suffixes) x {Undefined, StrictUndefined, FalsyStrictUndefined, "
         "StrictDefaultUndefined}; P: every (operation, target path) probe (output/iterate/equality/compare/truthiness/"
-        "every registered filter x 5 argument shapes/filter argument x 3 shapes (8 of the targets)/tag argument) x 14 probe data assignments (incl. arrays holding nil and false) x every "
+        "every registered filter x 5 argument shapes/filter argument x 3 shapes (8 of the targets, 8 of the data assignments)/tag argument) x 14 probe data assignments (incl. arrays holding nil and false) x every "
         "deletion subset of <=2 paths x the 4 types. Clauses: 1 (statement) a strict type that renders ok gives the default "
         "type's output; 2a (statement) the default type never raises UndefinedError; 2c (statement) when the full data renders ok "
         "the default type with deletions never lets a non-Liquid exception escape (no nil baseline); 2b (statement) when the full data "
@@ -400,6 +403,8 @@ class C16(Check):
                     res.count("probe_never_valid_clause3_excluded")
                 full_cache: dict[str, U.Outcome] = {}
                 for lab, full, subset, data in variants:
+                    if oi >= FILTER_SWEEP_FROM[0] and lab not in FILTER_SWEEP_DATA:
+                        continue
                     self.check_cell(res, "P", src, tpls, lab, full, subset, data, probe, full_cache)
 
     @staticmethod
